@@ -628,6 +628,22 @@ def probe_split_exponential(ctx, f, t, cuts):
             fail("raises: %r" % (e,))
             return 0
         ld = [(float(s.path_length), float(s.tof), U.fl(s.emitted_direction), U.fl(s.received_direction), s.fresnel, U.cancellation_bound(s)) for s in ls]
+        if f[0] == t[0] and f[1] == t[1] and f[2] != t[2] and f[2] < 0 and t[2] < 0:
+            # exactly vertical pair: closed forms.  The direct ray is the vertical segment (length |dz|, direction (0,0,+-1)), the
+            # second solution goes straight up to the surface and back down (length |z0| + |z1|).  Both the one-medium tracer
+            # and the split stack must report exactly these two (beta = 0: the tracer's own beta = 0 forms are exact).
+            want = [(abs(t[2] - f[2]), math.copysign(1.0, t[2] - f[2]), math.copysign(1.0, t[2] - f[2])), (abs(f[2]) + abs(t[2]), 1.0, -1.0)]
+            for label, sols in (("one-medium tracer", [(float(s.path_length), U.fl(s.emitted_direction), U.fl(s.received_direction)) for s in us]),
+                                ("split stack", [(d[0], d[2], d[3]) for d in ld])):
+                for wl, wez, wrz in want:
+                    ok_ = [x for x in sols if abs(x[0] - wl) <= 1e-9 * (1 + wl) and abs(x[1][2] - wez) <= 1e-9 and abs(x[2][2] - wrz) <= 1e-9
+                           and math.hypot(x[1][0], x[1][1]) <= 1e-9]
+                    if not ok_:
+                        fail("vertical: the %s lacks the vertical solution of length %r (emitted z %+g, received z %+g); it reports %r" % (
+                            label, wl, wez, wrz, [(x[0], x[1][2]) for x in sols]), solution=label)
+            if len(us) != 2:
+                fail("vertical-count: the one-medium tracer reports %d solutions for an exactly vertical pair (two exist)" % len(us))
+            return len(ls)
         for k, s in enumerate(us):
             L, tof, em, rc = float(s.path_length), float(s.tof), U.fl(s.emitted_direction), U.fl(s.received_direction)
             uf = s.fresnel
@@ -694,6 +710,17 @@ def probes_split(ctx, scale):
     # a cut at -800 m: every section arriving there from below ends exactly on its layer's (clipped) z_uniform
     n2 += probe_split_exponential(ctx, [0.0, 0.0, -1000.0], [400.0, 0.0, -150.0], [-800.0])
     n2 += probe_split_exponential(ctx, [400.0, 0.0, -150.0], [0.0, 0.0, -1000.0], [-800.0])
+    # exactly vertical pairs, upward and downward, shallow and across the cuts
+    for zf, zt, cuts_v in ((-500.0, -100.0, [-300.0]), (-100.0, -500.0, [-300.0]), (-900.0, -50.0, [-800.0, -200.0]), (-50.0, -900.0, [-800.0])):
+        n2 += probe_split_exponential(ctx, [10.0, 20.0, zf], [10.0, 20.0, zt], cuts_v)
+    for _ in range(ctx.n(4, 60) * scale):
+        za, zb = round(rng.uniform(-1200, -5), 1), round(rng.uniform(-1200, -5), 1)
+        if za == zb:
+            continue
+        ox, oy = float(rng.choice([0.0, 120.0, -45.5])), float(rng.choice([0.0, -33.0]))
+        cuts_v = sorted({-float(round(rng.uniform(10, 1000), 0)) for _ in range(rng.choice([1, 2]))})
+        ctx.case(key=("split_exp_vertical", za, zb, tuple(cuts_v)), sample={"probe": "split_exp_vertical", "from": [ox, oy, za], "to": [ox, oy, zb], "cuts": cuts_v})
+        n2 += probe_split_exponential(ctx, [ox, oy, za], [ox, oy, zb], cuts_v)
     for it in range(ctx.n(14, 220) * scale):
         deep = it % 2 == 1          # every second case: a cut at / around / below z_uniform with a ray that crosses it
         if deep:
@@ -792,6 +819,118 @@ def probes_history(ctx, scale):
         probe_history(ctx, hist)
 
 
+# ---------------------------------------------------------------------------- probes: histories on one TRACER object
+def _uniform_summary(tr):
+    with np.errstate(all="ignore"):
+        out = []
+        for s in tr.solutions:
+            try:
+                out.append((int(s._reflections), float(s.theta0), float(s.path_length), float(s.tof), U.fl(s.emitted_direction),
+                            U.fl(s.received_direction), [U.fl(p) for p in s._points]))
+            except ValueError as e:
+                out.append((int(s._reflections), float(s.theta0), "ValueError"))
+        return bool(tr.exists), out
+
+
+MOVES = ("augmented", "inplace_then_reassign", "plain")
+
+
+def _move(tr, attr, delta, how):
+    """move an end point of a live tracer through a public route"""
+    d = np.array(delta, dtype=float)
+    if how == "augmented":
+        if attr == "to_point":
+            tr.to_point += d
+        else:
+            tr.from_point += d
+    elif how == "inplace_then_reassign":
+        p = getattr(tr, attr)
+        p += d                                   # the caller edits the array it got from the tracer ...
+        setattr(tr, attr, p)                     # ... and assigns it back
+    else:
+        setattr(tr, attr, np.array(getattr(tr, attr), dtype=float) + d)
+
+
+def probe_tracer_history(ctx, hist):
+    """read .solutions -> move an end point of the SAME tracer object (augmented assignment / in-place edit and re-assignment /
+    plain assignment) -> read again: must equal, exactly, a freshly built tracer on the moved end points (which is judged
+    against image geometry / junction physics by the other probes, and here again for the uniform tracer)."""
+    kind = hist["kind"]
+    key = "tracer-history:%s" % json.dumps(hist, sort_keys=True)
+
+    def fail(what):
+        ctx.fail(key, "%s tracer history (%s of %s by %r): %s; %s" % (kind, hist["how"], hist["attr"], hist["delta"], what, json.dumps(hist)),
+                 {"kind": "tracer_history", "hist": hist})
+    cfg = hist["cfg"]
+    new = json.loads(json.dumps(cfg))
+    key_pt = "to" if hist["attr"] == "to_point" else "from"
+    new[key_pt] = [float(np.float64(a) + np.float64(b)) for a, b in zip(cfg[key_pt], hist["delta"])]
+    with np.errstate(all="ignore"):
+        try:
+            if kind == "uniform":
+                tr = U.uniform_tracer(cfg)
+                tr.from_point = np.array(tr.from_point, dtype=float)
+                tr.to_point = np.array(tr.to_point, dtype=float)
+                first = _uniform_summary(tr)
+                _move(tr, hist["attr"], hist["delta"], hist["how"])
+                got = _uniform_summary(tr)
+                want = _uniform_summary(U.uniform_tracer(new))
+            else:
+                tr = U.layered_tracer(cfg)
+                tr.from_point = np.array(tr.from_point, dtype=float)
+                tr.to_point = np.array(tr.to_point, dtype=float)
+                first = (bool(tr.exists), _solution_summary(tr))
+                _move(tr, hist["attr"], hist["delta"], hist["how"])
+                got = (bool(tr.exists), _solution_summary(tr))
+                want = (bool(U.layered_tracer(new).exists), _solution_summary(U.layered_tracer(new)))
+        except Exception as e:
+            fail("raises %r" % (e,))
+            return
+    if U.fl(getattr(tr, hist["attr"])) != new[key_pt]:
+        fail("the end point of the tracer is %r after the move, expected %r" % (U.fl(getattr(tr, hist["attr"])), new[key_pt]))
+        return
+    if got != want:
+        def brief(x):
+            return (x[0], [(y[2] if kind == "uniform" else y[0]) for y in x[1]])
+        fail("after the move the tracer reports (exists, lengths) %r, a fresh tracer on the moved end points %r%s" % (
+            brief(got), brief(want), " -- the values before the move are still served" if got == first else ""))
+        return
+    if kind == "uniform":
+        probe_uniform_cfg(ctx, new)
+
+
+def probes_tracer_history(ctx, scale):
+    rng = ctx.rng
+    base = {"ice": {"n": 1.5, "lo": -500.0, "hi": 0.0, "above": 1.0, "below": 1.8}, "from": [100.0, 50.0, -100.0], "to": [400.0, 50.0, -200.0], "max_reflections": 2}
+    for how in MOVES:
+        for attr in ("to_point", "from_point"):
+            probe_tracer_history(ctx, {"kind": "uniform", "cfg": base, "attr": attr, "delta": [25.0, -10.0, -30.0], "how": how})
+    for _ in range(ctx.n(24, 500) * scale):
+        cfg = rand_uniform_cfg(rng)
+        if U.uniform_expected(cfg) is None:
+            continue
+        ice = cfg["ice"]
+        attr = rng.choice(["to_point", "from_point"])
+        z = cfg["to" if attr == "to_point" else "from"][2]
+        dz = rng.choice([0.0, 0.0, round(rng.uniform(ice["lo"], ice["hi"]), 1) - z, ice["hi"] + 5.0 - z])
+        delta = [float(rng.choice([0.0, 12.5, -300.0])), float(rng.choice([0.0, 40.0])), float(dz)]
+        if delta == [0.0, 0.0, 0.0]:
+            delta[0] = 1.0
+        hist = {"kind": "uniform", "cfg": cfg, "attr": attr, "delta": delta, "how": rng.choice(MOVES)}
+        ctx.case(key=("tracer_history", json.dumps(hist, sort_keys=True)), sample={"probe": "tracer_history", "hist": hist})
+        probe_tracer_history(ctx, hist)
+    for _ in range(ctx.n(8, 150) * scale):
+        cfg = rand_layered_cfg(rng, ice=rand_stack(rng, kinds=("uniform",)))
+        attr = rng.choice(["to_point", "from_point"])
+        top, bot = cfg["ice"]["layers"][0]["hi"], cfg["ice"]["layers"][-1]["lo"]
+        z = cfg["to" if attr == "to_point" else "from"][2]
+        dz = rng.choice([0.0, round(rng.uniform(max(bot, -1200.0), top), 1) - z])
+        delta = [float(rng.choice([15.0, -220.0])), float(rng.choice([0.0, 60.0])), float(dz)]
+        hist = {"kind": "layered", "cfg": cfg, "attr": attr, "delta": delta, "how": rng.choice(MOVES)}
+        ctx.case(key=("tracer_history", json.dumps(hist, sort_keys=True)), sample={"probe": "tracer_history", "hist": hist})
+        probe_tracer_history(ctx, hist)
+
+
 # ---------------------------------------------------------------------------- entry points
 def run(ctx):
     ctx.rule = ("uniform: random ice (range, indices incl. missing ones), endpoints incl. exactly on / outside the boundaries, coincident, "
@@ -838,6 +977,7 @@ def run(ctx):
     probes_layered(ctx, scale)
     probes_split(ctx, scale)
     probes_history(ctx, scale)
+    probes_tracer_history(ctx, scale)
 
 
 def replay(ctx, obj):
@@ -872,6 +1012,11 @@ def replay(ctx, obj):
         probe_split_exponential(ctx, obj["from"], obj["to"], obj["cuts"])
         for f in ctx.failures:
             print("FAIL:", f["what"][:800])
+    elif k == "tracer_history":
+        probe_tracer_history(ctx, obj["hist"])
+        for f in ctx.failures:
+            print("FAIL:", f["what"][:1200])
+        print("(no failure: the moved tracer and a fresh tracer agree)" if not ctx.failures else "")
     elif k == "history":
         probe_history(ctx, obj["hist"])
         for f in ctx.failures:
